@@ -7,12 +7,15 @@
 package cluster
 
 import (
+	"bytes"
 	"crypto/rand"
 	"fmt"
 	"io"
 	"log"
 	"os"
 	"path/filepath"
+	"runtime"
+	"strings"
 	"sync"
 	"testing/synctest"
 	"time"
@@ -388,6 +391,93 @@ func (w *World) RunTask(t *Task) {
 			panic("RunTask: task does not finish its step")
 		}
 	}
+}
+
+// goroutineBlockedOnLock tells whether the goroutine is blocked on a sync
+// primitive (which synctest does not count as durably blocked).
+func goroutineBlockedOnLock(gid int64) bool {
+	buf := make([]byte, 1<<20)
+	n := runtime.Stack(buf, true)
+	marker := []byte(fmt.Sprintf("goroutine %d [", gid))
+	i := bytes.Index(buf[:n], marker)
+	if i < 0 {
+		return false
+	}
+	rest := buf[i+len(marker) : n]
+	j := bytes.IndexByte(rest, ']')
+	if j < 0 {
+		return false
+	}
+	st := string(rest[:j])
+	return strings.Contains(st, "Mutex") || strings.Contains(st, "semacquire") || strings.Contains(st, "sync.Cond")
+}
+
+// GrantNB grants a parked task like Grant, but copes with the task blocking on
+// a product mutex that another parked task holds (gate-level interleaving
+// inside a critical section): it returns false in that case, and the caller
+// must let the lock holder run on. synctest.Wait cannot be used while a task
+// is blocked on a mutex (not a durable block), so progress is observed by
+// polling the task's own park flag.
+func (w *World) GrantNB(t *Task) bool {
+	g := t.Parked()
+	if g == nil {
+		return true
+	}
+	if w.GateHook != nil {
+		w.GateHook(t, *g)
+	}
+	w.Gates++
+	w.Log.Add("g %s %s %s", t.Name, g.Point, g.Key)
+	before := t.gateCount()
+	t.grant <- cmdGo
+	blockedObs := 0
+	for i := 0; ; i++ {
+		if t.Done() || (t.Parked() != nil && t.gateCount() > before) {
+			return true
+		}
+		runtime.Gosched()
+		if i%300 == 299 {
+			if goroutineBlockedOnLock(t.gid) {
+				blockedObs++
+			} else {
+				blockedObs = 0
+			}
+			// three consecutive observations: a transient wait on an internal
+			// LevelDB/runtime lock is not a block on a product lock
+			if blockedObs >= 3 {
+				w.Log.Add("blocked %s on a lock", t.Name)
+				w.Stats.Probe("task-blocked-on-product-lock")
+				return false
+			}
+			if !t.Done() && t.Parked() == nil && i > 3000 && goroutineWaiting(t.gid) {
+				return true // waiting for something else (ticker): treated as end of step
+			}
+		}
+	}
+}
+
+// goroutineWaiting: blocked in select/chan receive/sleep (durably), e.g. the poller back on its ticker.
+func goroutineWaiting(gid int64) bool {
+	buf := make([]byte, 1<<20)
+	n := runtime.Stack(buf, true)
+	marker := []byte(fmt.Sprintf("goroutine %d [", gid))
+	i := bytes.Index(buf[:n], marker)
+	if i < 0 {
+		return true
+	}
+	rest := buf[i+len(marker) : n]
+	j := bytes.IndexByte(rest, ']')
+	if j < 0 {
+		return false
+	}
+	st := string(rest[:j])
+	return strings.Contains(st, "select") || strings.Contains(st, "chan receive") || strings.Contains(st, "sleep")
+}
+
+func (t *Task) gateCount() int {
+	t.mu.Lock()
+	defer t.mu.Unlock()
+	return t.gates
 }
 
 // RunPollTick runs exactly one tick of a poller that is parked at the start
